@@ -13,6 +13,7 @@
                "fcond"     int fK() { if (<prev> > 0) return 1; return 0; }                   condition
                "floop"     int fK() { int t = 0; for (t = 0; t < <prev>; t++) { } return t; } loop bound
                "fwhile"    int fK() { int t = 0; while (t < <prev>) { t++; } return t; }
+               "fthenelse" int fK() { int t = 0; if (t == 0) { t = <prev>; } else { t = 1; } return t; }   then-branch of an if that has an else
    and then used in a compile-time CONTEXT.
    State per link: sem  = TRUE iff its value depends only on literals, constants, binders (least fixpoint);
                    dep  = the implementation's view: the set of non-function symbols collect_possible_reads returns for
@@ -29,7 +30,7 @@ EXTENDS Integers, Sequences, FiniteSets, TLC, Json
 CONSTANTS MaxLinks
 
 Leaves == {"lit", "const", "binder", "mut", "mutelem", "constelem"}
-FunLinks == {"fun", "flocal", "flocalarr", "flocalrec", "fcall", "flhsidx", "fcompound", "fcond", "floop", "fwhile"}
+FunLinks == {"fun", "flocal", "flocalarr", "flocalrec", "fcall", "flhsidx", "fcompound", "fcond", "floop", "fwhile", "fthenelse"}
 Links == {"cinit", "tinit"} \cup FunLinks     \* tinit: typedef-free; const initialised inside the template declaration
 Contexts == {"arrsize_g", "arrsize_t", "arrsize_f", "range_g", "range_t", "scalar_g", "init_g", "init_t", "init_meta",
              "valarg", "crefarg", "select_dom", "iter_dom", "quant_dom"}
@@ -87,7 +88,9 @@ InstEnds == {"free", "lit", "const", "mut"}
 InstAccepted(passes, end, use, hops) ==
     IF use = "arrsize" THEN end \in {"lit", "const"}      \* a free process parameter is never accepted inside an array size
     ELSE end \in {"free", "lit", "const"}                  \* plain use (a guard): only a non-computable argument is rejected
-InstCases == {[passes |-> n, end |-> e, use |-> u, hops |-> h, accepted |-> InstAccepted(n, e, u, h)] :
-                n \in 0..2, e \in InstEnds, u \in {"arrsize", "guard"}, h \in 0..3}
+(* dim: how the parameter enters the array declaration: as its size `int a[h]`, as the upper or the lower bound of an index type
+   `int a[int[0,h]]`, `int a[int[h,5]]` *)
+InstCases == {[passes |-> n, end |-> e, use |-> u, hops |-> h, dim |-> d, accepted |-> InstAccepted(n, e, u, h)] :
+                n \in 0..2, e \in InstEnds, u \in {"arrsize", "guard"}, h \in 0..3, d \in {"size", "upper", "lower"}}
 EmitInst == PrintT(<<"EMIT", ToJson([inst |-> InstCases])>>)
 =============================================================================
